@@ -16,6 +16,7 @@ RULE = ("(a) seeded whole-system runs with an uptime limit (3-50 ms of system ti
         "commands overlapping the uptime window, with and without a shutdown command; per run the timeline of clock pauses / resumes and of every uptime check (raw virtual instant, answer) is checked inside Coq: "
         "the answer is 'reached' exactly when scale x (un-paused real time since the control thread started) exceeds the limit (2 us tolerance for float rounding), no check follows a positive one, an idle control tick lasts "
         "one loop period; and the trace satisfies the cause monitor (shutdown event set / threads joined / launch over only after a shutdown command, a positive uptime check, an interrupt or an observed exception). "
+        "A quarter of the runs use a fixed-interval interaction (interval 0.25 / 0.5 s, scale 2 or 4) whose first step is being computed when the limit is reached: from the positive check to the end of launch() no more real time may pass than two loop periods, the step and training run in flight with their hooks and interval / scale (harness-side clause). "
         "(b) bookkeeping: a real InferenceThread.on_tick driven with a scripted clock (reads advance by 0-4 ticks around the logging interval, intervals incl. 0) for 1-30 ticks: nothing raises and the logged step counts match the model. "
         "Non-trivial = a run ended by the uptime limit with at least one pause inside the window, or a bookkeeping case with a log of exactly one step; distinct = canonical JSON.")
 TRUSTED = B.TRUSTED_SYS + [
@@ -45,7 +46,35 @@ def gen_run(rng, seed):
         sp["cmds"] += [["sleep", 0.003], ["resume", "retry"], ["sleep", 1.0], ["shutdown", "retry"]]
     sp["max_events"] = 30000
     sp["queue_size"] = rng.choice([1, 2, 5])
+    if rng.random() < 0.25:
+        # a fixed-interval interaction whose step is being computed when the limit is reached: what remains of the interval is
+        # waited for in system time, i.e. interval / scale real seconds at most
+        sp["fixed_interval"] = [rng.choice([0.25, 0.5]), 0.0]
+        sp["time_scale"] = rng.choice([2.0, 4.0, 4.0])
+        sp["step_dur"] = rng.choice([0.01, 0.02])
+        sp["max_uptime"] = rng.choice([0.003, 0.01, 0.02])
     return sp
+
+
+def late_return(case, obs):
+    """'within one loop period plus the step in flight': from the uptime check that answered 'reached' to the end of launch()
+    no more real time passes than the step and the training run in flight, their hooks, and - with a fixed-interval
+    interaction - what is waited for after the step: at most interval / scale real seconds (harness-side clause)"""
+    tl = obs.get("timeline") or []
+    reached = [e for e in tl if e[0] == "check" and e[3]]
+    tr, times = obs.get("trace") or [], obs.get("times") or []
+    done = next((i for i, e in enumerate(tr) if e[1] == "launch_done"), None)
+    if not reached or done is None or len(times) <= done:
+        return None
+    over = times[done] - reached[0][1] - return_bound(case)
+    return f"launch() ended {over:.4f} s later than the step in flight allows" if over > 0 else None
+
+
+def return_bound(case):
+    fi = case.get("fixed_interval")
+    k = case.get("time_scale", 1.0)
+    return (2 * case.get("loop_delay", 0.001) * max(1.0, 1.0 / k) + case.get("step_dur", 0) + (fi[0] / case.get("time_scale", 1.0) if fi else 0) + case.get("train_dur", 0)
+            + 4 * case.get("hook_dur", 0) + 0.005)
 
 
 def gen_book(rng):
@@ -82,7 +111,7 @@ def precheck(case, obs):
         return None
     if obs.get("deadlock") is not None:
         return {"agree": True, "prop_ok": False}
-    if framework_exception(obs):
+    if framework_exception(obs) or late_return(case, obs):
         return {"agree": False, "prop_ok": False}
     return None
 
@@ -175,14 +204,26 @@ def coq_case(case, obs):
         k = _scaled(case)[2]
         ticks = cl(f"({coq_evs(s, k)}, {coq_bout(o)})" for s, o in obs["ticks"])
         return f"(C08Book {coq_binput(case, obs)} ({coq_evs(obs['ctor'], k)}, {ticks}))"
-    return f"(C08Run {B.coq_sysin(case, obs)} {B.coq_trace(obs['trace'])} {coq_timeline(case, obs)})"
+    return f"(C08Run {B.coq_sysin(case, obs)} {B.coq_trace(m6_trace(obs))} {coq_timeline(case, obs)})"
+
+
+def m6_trace(obs):
+    """M6 knows the interaction's step as one callback; the sleeps of a fixed-interval interaction's wait (recorded by the
+    runner as index spans of the trace) are inside it and are left out of the trace handed to the acceptor"""
+    spans = (obs.get("pacing") or {}).get("adjust_spans") or []
+    if not spans:
+        return obs["trace"]
+    inside = set()
+    for a, b in spans:
+        inside.update(range(a, b))
+    return [e for i, e in enumerate(obs["trace"]) if not (i in inside and e[1] == "sleep" and e[0] == "bg0")]
 
 
 def coq_expected(case, obs):
     if case.get("kind") == "book":
         ivl, reads, _ = _scaled(case)
         return f"inf_trace false {cb(obs.get('strict', True))} {cz(ivl)} {cl(cz(r) for r in reads)} {cn(case['ticks'])}"
-    return B.coq_expected(case, obs)
+    return B.coq_expected(case, dict(obs, trace=m6_trace(obs)))
 
 
 def nontrivial(case, obs):
@@ -207,6 +248,8 @@ def signature(case, obs):
         return "does-not-end"
     if framework_exception(obs):
         return "framework-bookkeeping-ended-the-run"
+    if late_return(case, obs):
+        return "returns-later-than-the-step-in-flight-allows"
     return "uptime-or-cause"
 
 
@@ -257,5 +300,5 @@ LEVEL_TEXT = ("Machine-checked: (1) on the thread model, for every accepted trac
               "clock advances by scale x un-paused real time, so the uptime check fires iff un-paused real time > U/scale, and the overshoot is bounded by the un-paused real time between two consecutive checks. Tied to /repo by whole-system runs "
               "(timeline of raw instants re-computed in Coq with 2 us tolerance; traces accepted by M6) and by bookkeeping runs of the real InferenceThread.on_tick compared event by event with the model.")
 LEVEL_NOTE = ("Partial in one respect: 'within one loop period plus the step in flight' is shown as 'noticed at the first uptime check after the crossing' (theorem) plus 'an idle control tick lasts exactly one loop period' (checked on runs); "
-              "a control tick that executes a pause with time-outs lasts as long as those time-outs, which the property's bound does not mention. Trusted: as C01, plus the harness-side wrappers named in trusted_base.")
+              "a control tick that executes a pause with time-outs lasts as long as those time-outs, which the property's bound does not mention; the time from the positive check to the end of launch() (step in flight, interval / scale for a fixed-interval step) is bounded on the runs by a harness-side clause, not by a theorem. Trusted: as C01, plus the harness-side wrappers named in trusted_base.")
 DESIGN_REF = "DESIGN.md §4 C08"
